@@ -1,18 +1,55 @@
 import FalconModel.Pipeline
+import FalconModel.PipelineErr
 open Pl
 def act (s : String) : Option Act := match s with | "r" => some .ret | "c" => some .complete | "x" => some .raise_ | _ => none
 def showCall : Call → String
   | .req i => s!"req:{i}" | .rsrc i => s!"rsrc:{i}" | .responder => "responder"
   | .resp i h s => s!"resp:{i}:{h}:{s}"
+
+/-! `runx`: the refined model `Pe.run` (FalconModel/PipelineErr.lean).  Action letters: r = return, c = complete,
+    e = raise HTTPError, s = raise HTTPStatus, application error whose handler … h = sets the response, d = is falcon's
+    default one, H = raises HTTPError, S = raises HTTPStatus, P = raises a plain exception, n = does not exist. -/
+def actx (s : String) : Option Pe.Act := match s with
+  | "r" => some .ret | "c" => some .complete | "e" => some (.raise_ (.http .app)) | "s" => some (.raise_ .status)
+  | "h" => some (.raise_ (.app .sets)) | "d" => some (.raise_ (.app .default)) | "H" => some (.raise_ (.app .raisesHttp))
+  | "S" => some (.raise_ (.app .raisesStatus)) | "P" => some (.raise_ (.app .raisesPlain)) | "n" => some (.raise_ (.app .none))
+  | _ => none
+def showSite : Pe.Site → String
+  | .req i => s!"req:{i}" | .rsrc i => s!"rsrc:{i}" | .responder => "responder" | .defaultResponder => "default" | .resp i => s!"resp:{i}"
+/-- falcon's own 404/405 responder and its own (default) error handlers cannot be observed through the public API: they
+    are not printed; what they do is visible in the final status -/
+def showEv : Pe.Ev → Option String
+  | .call (.req i) _ => some s!"req:{i}" | .call (.rsrc i) _ => some s!"rsrc:{i}" | .call .responder _ => some "responder"
+  | .call .defaultResponder _ => none
+  | .call (.resp i h s) _ => some s!"resp:{i}:{h}:{s}"
+  | .handler s (.app .sets) => some s!"h:h@{showSite s}"
+  | .handler s (.app .raisesHttp) => some s!"h:H@{showSite s}"
+  | .handler s (.app .raisesStatus) => some s!"h:S@{showSite s}"
+  | .handler s (.app .raisesPlain) => some s!"h:P@{showSite s}"
+  | .handler _ _ => none
+def showStatus : Pe.Status → String
+  | .ok => "200" | .http .app => "403" | .http .notFound => "404" | .http .notAllowed => "405" | .status => "202"
+  | .custom => "418" | .internal => "500" | .handlerHttp => "409" | .handlerStatus => "299"
+def showOutcome : Pe.Outcome → String
+  | .responded st => s!"responded:{showStatus st}" | .escaped => "escaped"
+
+def parseTarget (tgt : String) : Target := match tgt with | "r" => .route | "m" => .noMethod | "s" => .sink | _ => .nothing
+
 def step (line : String) : String :=
   match line.trimAscii.toString.splitOn " " with
   | "run" :: indep :: tgt :: resp :: comps =>
-    let target : Target := match tgt with | "r" => .route | "m" => .noMethod | "s" => .sink | _ => .nothing
     let cs := comps.filter (· != "") |>.map fun c =>
       match c.splitOn "," with
       | [a, b, d] => ({ req := act a, rsrc := act b, resp := act d } : Comp)
       | _ => { req := none, rsrc := none, resp := none }
-    " ".intercalate ((run { comps := cs, independent := indep == "1", target := target, responder := (act resp).getD .ret }).map showCall)
+    " ".intercalate ((run { comps := cs, independent := indep == "1", target := parseTarget tgt, responder := (act resp).getD .ret }).map showCall)
+  | "runx" :: indep :: tgt :: resp :: comps =>
+    let cs := comps.filter (· != "") |>.map fun c =>
+      match c.splitOn "," with
+      | [a, b, d] => ({ req := actx a, rsrc := actx b, resp := actx d } : Pe.Comp)
+      | _ => { req := none, rsrc := none, resp := none }
+    let (t, o) := Pe.run { comps := cs, independent := indep == "1", target := parseTarget tgt, responder := (actx resp).getD .ret }
+    " ".intercalate (t.filterMap showEv) ++ " | " ++ showOutcome o
   | _ => "bad-op"
 partial def loop (h : IO.FS.Stream) : IO Unit := do
   let line ← h.getLine
